@@ -18,6 +18,12 @@ func (s *ClientCache) Heartbeat(instance string) {
 	return
 }
 
+// Observe makes an instance known from its first request on. Unlike Heartbeat
+// it does not refresh an instance that is already known.
+func (s *ClientCache) Observe(instance string) {
+	s.clientHeartbeats.LoadOrStore(instance, time.Now())
+}
+
 func (s *ClientCache) Delete(instance string) {
 	s.clientHeartbeats.Delete(instance)
 }
